@@ -9,7 +9,8 @@ import json
 from checks import merge_common as mc
 from vlib import core
 
-THEOREMS = ["C07_keyset", "C07_mismatch", "C07_no_default_null", "C07_default_null_only", "C07_suppressed"]
+THEOREMS = ["C07_keyset", "C07_mismatch", "C07_no_default_null", "C07_default_null_only", "C07_suppressed",
+            "C07_warnings_exact", "C07_spec"]
 PROPS = "theories/Props/C07.v"
 REGISTRY = {
     "level": "proof",
@@ -19,8 +20,9 @@ REGISTRY = {
             "other locales hold (C07_keyset); a successful merge implies that no locale holds a group where the default holds "
             "a value or vice versa (C07_mismatch); a null in the default is rejected and ExplicitDefaultInDefault is raised for "
             "nothing else (C07_no_default_null, C07_default_null_only); the suppress_key_warnings build produces no warning "
-            "(C07_suppressed). The exactness of the Missing/Surplus multiset (C07_warnings_exact_statement) is NOT proved: it "
-            "is evaluated by spec_C07 on the real parser output of every generated project (both builds).",
+            "(C07_suppressed); the produced Missing/Surplus warnings are, as a multiset, exactly the expected ones "
+            "(C07_warnings_exact) and spec_C07 holds of the model on every well-formed case (C07_spec). spec_C07 is evaluated "
+            "on the real parser output of every generated project (both builds).",
     "design_ref": "DESIGN.md §5 C07",
     "note": "Trusted: Coq kernel + vm_compute; hand-written model Parser/Merge.v (tied by the correspondence run); only "
             "MissingKey/SurplusKey are 'these diagnostics' (DESIGN §10), UnusedForm belongs to C05; plural merging is the "
@@ -147,8 +149,8 @@ def run(ctx):
     exe_s = mc.build_variant(ctx, ["json", "suppress"])
     ok, problems = core.coq_audit(ctx, PROPS, THEOREMS)
     projs = gen_projects(ctx)
-    metas, codes = mc.evaluate(ctx, exe, projs, False, "n", "check_C07")
-    metas_s, codes_s = mc.evaluate(ctx, exe_s, projs, True, "s", "check_C07")
+    metas, codes = mc.evaluate(ctx, exe, projs, False, "n", "check_C07s")
+    metas_s, codes_s = mc.evaluate(ctx, exe_s, projs, True, "s", "check_C07s")
     metas, codes = metas + metas_s, codes + codes_s
     bad = [m for m, c in zip(metas, codes) if c == 3]
     dis = [m for m, c in zip(metas, codes) if c == 2]
@@ -156,7 +158,7 @@ def run(ctx):
     panics = [m for m in metas if m["impl"].get("kind") == "panic"]
     if bad:
         bad.sort(key=lambda m: mc.size_of(m["project"]))
-        small = mc.shrink(ctx, exe_s if bad[0]["suppress"] else exe, bad[0], "check_C07")
+        small = mc.shrink(ctx, exe_s if bad[0]["suppress"] else exe, bad[0], "check_C07s")
         core.violation(ctx, "spec", {
             "failing_input": {"project": small, "cargo_toml": mc.cargo_toml(small),
                               "files": {k: mc.tree_obj(t) for k, t in small["files"].items()},
@@ -212,7 +214,7 @@ def replay(ctx, path):
         return 0
     sup = bool(fi.get("suppress_key_warnings"))
     exe = mc.build_variant(ctx, ["json", "suppress"] if sup else ["json"])
-    metas, codes = mc.evaluate(ctx, exe, [("replay", p)], sup, "replay", "check_C07")
+    metas, codes = mc.evaluate(ctx, exe, [("replay", p)], sup, "replay", "check_C07s")
     print(mc.cargo_toml(p))
     print(json.dumps(fi.get("files"), indent=1))
     print("implementation:", metas[0]["impl"]["raw"])
